@@ -1,4 +1,4 @@
 (* Extraction for the C10/C11 correspondence driver (ExtrOcamlBasic only). *)
 From Coq Require Import Extraction ExtrOcamlBasic NArith ZArith List.
 From AHK Require Import Model.Reconnect.
-Separate Extraction Z.of_N Z.to_N N.of_nat N.to_nat run trace tie fuel_out.
+Separate Extraction Z.of_N Z.to_N N.of_nat N.to_nat run trace tie fuel_out adv_out.
